@@ -137,7 +137,43 @@ def radd_task(task):
 
 
 def _dispatch(t):
+    if t[0] == "inv":
+        return inv_task(t[1])
     return {"offs": offs_task, "rdiff": rdiff_task, "radd": radd_task}[t[0]](t[1])
+
+
+def inv_task(task):
+    """--from-zone TAI|GPS: a stamp on the TAI (GPS) scale back to UTC; the offset is the one in force at the UTC instant"""
+    bindir, zone, ts = task
+    sh = Shard()
+    L = leap.Leaps()
+    f = L.tai_utc if zone == "TAI" else L.gps_utc
+    xs, us = [], []
+    for t in ts:
+        for d in (-1, 0, 1, 5, 17, 18, 19, 36, 37, 38):
+            x = t + f(t) + d
+            # the UTC instant u with u + offset(u) == x, if it is a regular second
+            cand = [x - k for k in set(f(v) for v in (x - 40, x - 20, x - 10, x))]
+            u = [c for c in cand if c + f(c) == x]
+            if len(u) == 1 and 0 <= u[0] <= EP_MAX and 0 <= x <= EP_MAX:
+                xs.append(x)
+                us.append(u[0])
+    lines = [civ(x) for x in xs]
+    argv = [str(bindir / "dconv"), "--from-zone", zone, "-f", "%FT%T"]
+    r = run(argv, stdin=("\n".join(lines) + "\n").encode(), cpu=30, wall=120)
+    sh.procs += 1
+    sh.check_san(r, "san", "leap:inv:%s" % zone)
+    outs, _ = align_lines(lines, r)
+    for x, u, got in zip(xs, us, outs):
+        i, sd = side(L, u)
+        c = (zone + "-inverse", "pre-1972" if u < L.ts[0] else "table", sd)
+        if got == civ(u):
+            sh.ok("leap-offset", c)
+        else:
+            sh.bad("leap-offset", "leap:inv:%s:%s" % (zone, sd),
+                   "dconv --from-zone %s %s -> %r, the UTC instant with that %s label is %s" % (zone, civ(x), got, zone, civ(u)),
+                   dict(argv=argv, input=civ(x), expected=civ(u), observed=got), cls=c)
+    return sh
 
 
 def main(tier, seed):
@@ -155,6 +191,7 @@ def main(tier, seed):
     offs_ts = sorted(set(bnd + mids + years + far + [0, 1, 86400, L.ts[0] - 86400 * 200]))
     offs_ts = [t for t in offs_ts if 0 <= t <= EP_MAX]
     tasks = [("offs", (bindir, "TAI", offs_ts)), ("offs", (bindir, "GPS", offs_ts + [315964799, 315964800, 315964801]))]
+    tasks += [("inv", (bindir, "TAI", offs_ts)), ("inv", (bindir, "GPS", [t for t in offs_ts if t >= 315964800]))]
     rnd = [rng.randrange(L.ts[0], L.ts[-1] + 86400 * 3000) for _ in range(200 if quick else 5000)]
     for ch in range(0, len(rnd), 100):
         tasks.append(("offs", (bindir, "TAI", sorted(rnd[ch:ch + 100]))))
@@ -171,7 +208,7 @@ def main(tier, seed):
             tasks.append(("radd", (bindir, s * n, add_ts + [rng.randrange(L.ts[0] + 100, L.ts[-1] + 10 ** 8) for _ in range(40)])))
     for sh in core.pmap(_dispatch, tasks):
         ctx.merge(sh)
-    ctx.rule = ("events: (1) dconv --zone TAI|GPS at every table entry -2..+2 s, interval midpoints, year starts to 4093, "
+    ctx.rule = ("events: (0) dconv --from-zone TAI|GPS for stamps -1..+38 s around every table entry (the inverse mapping); (1) dconv --zone TAI|GPS at every table entry -2..+2 s, interval midpoints, year starts to 4093, "
                 "2^31 and 2^32 +-1, random: the applied offset must be the table value (TAI-UTC of the last entry <= t; "
                 "GPS = TAI-19 from 1980-01-06); (2) ddiff A B -f '%%rS|%%S' on ordered pairs of boundary instants: real "
                 "seconds = UTC difference + leap seconds in (A,B], antisymmetric; (3) dadd DT +-Nrs for instants -5..+5 s "
